@@ -104,7 +104,10 @@ def main(run):
     tasks += go("StructBigAlphabet", 3 if thorough else 2, 1, bases, "AsmCore struct, large repeat counts 17/33/40 (exhaustive)")
     tasks += go("StructAlphabet", 2, 2, [512], "AsmCore struct, 2 files x 2 stmts with LinkIsConcatenation (" + ("exhaustive" if thorough else "simulation") + ")",
                 extra=("concat",), timeout=6000, simulate=None if thorough else 800, depth=None if thorough else 6, seed=run.seed + 2)
-    tasks += go("StructDirAlphabet", 3 if thorough else 2, 2, [512], "AsmCore struct, same-named inserted files in two directories and linked includable files (exhaustive)")
+    tasks += go("StructDirAlphabet", 2, 2, [512], "AsmCore struct, same-named inserted files in two directories and linked includable files (exhaustive)")
+    if thorough:        # all 2-file programs of 3 statements would be 2.1 million: a simulation instead
+        tasks += go("StructDirAlphabet", 3, 3, [512], "AsmCore struct, directories and linked includable files, simulation (<= 3 stmts x 3 files)",
+                    simulate=30000, depth=10, seed=run.seed + 29)
     tasks += go("StructAlphabet", 5, 2, bases, "AsmCore struct simulation (<= 5 stmts x 2 files)", simulate=(5000 if thorough else 250), depth=11,
                 seed=run.seed + 17)
     run.note("variants_checked", counts)
